@@ -5,6 +5,10 @@ mod c01;
 mod c02;
 mod c03;
 mod c04;
+mod c05;
+mod c10;
+mod c11;
+mod chan;
 mod c19;
 mod smoke;
 
@@ -16,6 +20,11 @@ pub fn build(prop: &str, tier: &str) -> Vec<Scenario> {
         "C02" => c02::build(quick),
         "C03" => c03::build(quick),
         "C04" => c04::build(quick),
+        "C05" => c05::build(quick),
+        "C06" => chan::build_c06(quick),
+        "C07" => chan::build_c07(quick),
+        "C10" => c10::build(quick),
+        "C11" => c11::build(quick),
         "C19" => c19::build(quick),
         _ => vec![],
     }
